@@ -321,6 +321,47 @@ def run(ctx):
             if key not in seen_keys:
                 seen_keys[key] = dict(ext=ext, n_frames=n, ops=[tok(o) for o in small], atom_indices=ai, got=got,
                                       expected=spec_run(n, small)[0], errors=errs2, first_divergence=at)
+    # ---- a .dcd file with fixed atoms (NAMD style: the first frame holds every atom, later frames the free ones): histories with
+    # backward seeks against the frames the file was built from
+    import struct
+    from mdtraj.formats import DCDTrajectoryFile
+
+    def build_fixed(path_, N=6, fixed=(1, 4), nframes=6, seed_=3):
+        rs = np.random.RandomState(seed_)
+        free = [i for i in range(N) if i not in fixed]
+        X = (rs.rand(nframes, N, 3) * 10).astype("<f4")
+        X[:, list(fixed)] = X[0, list(fixed)]
+        rec = lambda b: struct.pack("<i", len(b)) + b + struct.pack("<i", len(b))
+        hdr = b"CORD" + struct.pack("<9i", nframes, 0, 1, nframes, 0, 0, 0, 0, len(fixed)) + struct.pack("<f", 1.0) + struct.pack("<i", 0) + struct.pack("<8i", *([0] * 8)) + struct.pack("<i", 24)
+        out = rec(hdr) + rec(struct.pack("<i", 2) + b" " * 160) + rec(struct.pack("<i", N)) + rec(struct.pack("<%di" % len(free), *[i + 1 for i in free]))
+        for f_ in range(nframes):
+            sel = list(range(N)) if f_ == 0 else free
+            for k_ in range(3):
+                out += rec(X[f_, sel, k_].tobytes())
+        open(path_, "wb").write(out)
+        return X
+    fpath = os.path.join(ctx.scratch, "fixed.dcd")
+    Xf = build_fixed(fpath)
+    for hk in range(ctx.n(12, 60)):
+        fh = DCDTrajectoryFile(fpath)
+        pos, log, bad = 0, [], None
+        for _ in range(rng.randrange(2, 7)):
+            if rng.random() < 0.5:
+                kk = rng.randrange(0, len(Xf)); fh.seek(kk); pos = kk; log.append("seek(%d)" % kk)
+            else:
+                nn = rng.randrange(1, 4)
+                got = fh.read(nn)[0]; log.append("read(%d)" % nn)
+                want = Xf[pos:pos + nn]; pos = min(len(Xf), pos + nn)
+                if got.shape != want.shape or not np.allclose(got, want, atol=1e-5):
+                    bad = "%s returned %d frames%s, the file holds frames %s there" % (log[-1], got.shape[0], "" if got.shape != want.shape else " with other coordinates", list(range(pos - len(want), pos)))
+                    break
+                if fh.tell() != pos:
+                    bad = "tell() is %d after %s, expected %d" % (fh.tell(), "; ".join(log), pos); break
+        fh.close()
+        ctx.case(None, ("fixed-atoms-dcd", hk)); ctx.count("histories on a .dcd file with fixed atoms")
+        if bad:
+            ctx.violation("dcd|fixed-atoms|history", ".dcd file with fixed atoms, history %s: %s" % ("; ".join(log), bad), dict(ops=log))
+            break
     for key, rp in seen_keys.items():
         ctx.violation(key, "%s file object, %d frames, script %s: got %s, cursor semantics give %s" % (
             rp["ext"], rp["n_frames"], rp["ops"], rp["got"], rp["expected"]), rp)
